@@ -7,6 +7,7 @@
   Cancellation is C07's subject; here the context is not cancelled.
 -/
 import Desync.Proofs.VerifyIndexProofs
+import Desync.Generated.Facts
 
 namespace Desync.C17
 open Desync
@@ -52,5 +53,12 @@ theorem gen_sites :
 example : batches 25 1 = [(0,3),(3,6),(6,9),(9,12),(12,15),(15,18),(18,21),(21,24),(24,25)] := by decide
 example : Tiles 0 [⟨[], 0, 5⟩, ⟨[], 5, 7⟩] ∧ tileEnd 0 [⟨[], 0, 5⟩, ⟨[], 5, 7⟩] = 12 := by
   simp [Tiles, tileEnd]
+
+/-- **regenerated obligation**: `desync verify-index` hands every invocation to `VerifyIndex` with the worker
+    count the user gave; no path returns success before that call -/
+theorem gen_cmd_delegates :
+    Gen.cmdVerifyIndexShape = ["call(ctx,dataFile,idx,opt.n,pb)"] ∧
+    Gen.site_shape_cmdVerifyIndexShape_found = true := by
+  decide
 
 end Desync.C17
